@@ -20,7 +20,7 @@ SPEC = dict(
         "patterns are the unambiguous grammar G (exactly one parse of every generated text)",
         "cases where old and new are both non-PEP 440 are outside the model (counted as discarded)",
     ],
-    required=["agree:accepted", "agree:refused", "subprocess_replays"],
+    required=["agree:accepted", "agree:refused", "subprocess_replays", "update_command_replays"],
     anchors=[("v2version", "_incr_numeric"), ("v2version", "_reset_rollover_fields"), ("v2version", "incr"),
              ("v2version", "_is_cal_gt"), ("cli", "_validate_flags")],
 )
@@ -172,6 +172,23 @@ def run_case(ctx, case):
         if (rc == 0) != (res.exit_code == 0) or (sub if rc == 0 else None) != got:
             ctx.violation("other:subprocess_differs_from_in_process", f"test {old_text!r} {p!r}: in-process exit "
                           f"{res.exit_code} {got!r}, subprocess exit {rc} {sub!r}", case=dict(case, old=old_text))
+    if applicable and ctx.rng.random() < 0.2 and " " not in p and old_text.strip("'\" ") == old_text and p.strip("'\" ") == p:
+        # the other command: `bumpver update --dry` in a project whose only file is the configuration must
+        # announce exactly what `bumpver test` announces for the same version, pattern, flags and date
+        from bvmon.projects import toml_str
+        d = harness.new_project({"bumpver.toml": f"[bumpver]\ncurrent_version = {toml_str(old_text)}\n"
+                                 f"version_pattern = {toml_str(p)}\n\n[bumpver.file_patterns]\n"
+                                 "\"bumpver.toml\" = ['current_version = \"{version}\"']\n"})
+        try:
+            ures = harness.invoke(["update", "--dry", "--no-fetch"] + gen.flags_to_args(fl, date), cwd=d)
+        finally:
+            harness.rm_dir(d)
+        ugot = ures.record_value("New Version: ") if ures.exit_code == 0 else None
+        ctx.count("update_command_replays")
+        if ugot != got and not (ures.exit_code != 0 and any("Couldn't parse" in e for e in ures.errors())):
+            ctx.violation("other:update_differs_from_test", f"{gen.flags_to_args(fl, date)} on {old_text!r} {p!r}: "
+                          f"test announces {got!r}, update --dry announces {ugot!r}", case=dict(case, old=old_text),
+                          observed=ures.brief())
     if got == exp:
         ctx.count("agree:accepted" if got else "agree:refused")
         if fl.get("pin_date"):
